@@ -513,7 +513,8 @@ structure InfoJSONIn where
   genesisSeed : String
   chainHash : String
   oldSchemeID : String
-  oldGroupHash : String
+  /-- `groupHash`, `none` when the entry is absent (then nothing is decoded) -/
+  oldGroupHash : Option String
   /-- `metadata.beaconID`, `none` when there is no `metadata` object -/
   oldBeaconID : Option Bytes
   deriving DecidableEq, Repr
@@ -523,7 +524,7 @@ by json tag (the tag lists are regenerated and compared in DrandProofs/C20.lean)
 def jsonWire (o : InfoJSONOut) : InfoJSONIn :=
   { publicKey := o.publicKey, beaconID := o.beaconID, period := o.period, scheme := o.scheme,
     genesisTime := o.genesisTime, genesisSeed := o.genesisSeed, chainHash := o.chainHash,
-    oldSchemeID := "", oldGroupHash := "", oldBeaconID := none }
+    oldSchemeID := "", oldGroupHash := none, oldBeaconID := none }
 
 /-- `Info.MarshalJSON` -/
 def Info.marshalJSON (L : Leaf) (i : Info) : InfoJSONOut :=
@@ -537,7 +538,8 @@ def infoUnmarshalJSONGuards : List String :=
 /-- `Info.UnmarshalJSON` -/
 def Info.unmarshalJSON (L : Leaf) (v : InfoJSONIn) : Dec Info :=
   -- json.Unmarshal into the struct: the three HexBytes entries are hex-decoded here
-  match L.hexDec v.publicKey, L.hexDec v.genesisSeed, L.hexDec v.oldGroupHash with
+  match L.hexDec v.publicKey, L.hexDec v.genesisSeed,
+        (match v.oldGroupHash with | none => some [] | some s => L.hexDec s) with
   | some pkb, some seed, some oldHash =>
     let period := wrapI64 ((v.period : Int) * 1000000000)
     let legacy := v.oldSchemeID ≠ "" && v.scheme = ""
@@ -684,15 +686,19 @@ def DBState.toTOML (L : Leaf) (d : DBState) : DBStateTOML :=
 
 def dbStateFromTOMLGuards : List String := ["d.KeyShare!=nil", "err!=nil", "d.FinalGroup!=nil", "err!=nil", "err!=nil"]
 
+/-- the `d.FinalGroup != nil` branch of `DBStateTOML.FromTOML` -/
+def finalGroupFromTOML (L : Leaf) (schemeID : String) (g : GroupTOML) : Dec Group :=
+  match getSchemeByID schemeID with
+  | .error e => .error e
+  | .ok _ => Group.fromTOML L g
+
 /-- `DBStateTOML.FromTOML`: share first, then the group (whose scheme is first looked up from the *state's*
 `SchemeID`, an error if that fails, and then overwritten by `Group.FromTOML` from the group's own `SchemeID`) -/
 def DBStateTOML.fromTOML (L : Leaf) (t : DBStateTOML) : Dec DBState :=
   match optE (Share.fromTOML L) t.keyShare with
   | .error e => .error e
   | .ok share =>
-    match optE (fun g => match getSchemeByID t.schemeID with
-                         | .error e => .error e
-                         | .ok _ => Group.fromTOML L g) t.finalGroup with
+    match optE (finalGroupFromTOML L t.schemeID) t.finalGroup with
     | .error e => .error e
     | .ok group =>
       .ok { beaconID := t.beaconID, epoch := t.epoch, state := t.state, threshold := t.threshold, timeout := t.timeout,
@@ -714,6 +720,94 @@ def DBState.equals (L : Leaf) (d e : DBState) : Bool :=
    | some g, some g2 => g.equal L g2
    | _, _ => false) &&
   d.keyShare == e.keyShare
+
+/-! ### concrete leaves (used by the driver and for the non-vacuity examples) -/
+
+/-- `hex.EncodeToString`: lower-case, two digits per byte -/
+def hexEncC (b : Bytes) : String :=
+  String.ofList (b.flatMap fun x => [hexDigit (x.toNat / 16), hexDigit (x.toNat % 16)])
+/-- `hex.DecodeString`: even length, digits of either case -/
+def hexDecC (s : String) : Option Bytes := fromHexAux s.toList
+
+/-- a toy duration syntax (sign, then unary) — only to show `LeafOK` is satisfiable; the driver uses labels -/
+def durEncU (d : Int) : String :=
+  if 0 ≤ d then String.ofList ('+' :: List.replicate d.toNat '1') else String.ofList ('-' :: List.replicate (-d).toNat '1')
+def durDecU (s : String) : Option Int :=
+  match s.toList with
+  | '+' :: t => some (t.length : Int)
+  | '-' :: t => some (-(t.length : Int))
+  | _ => none
+
+/-- demo leaf: real hex, toy durations, "a point is any 2 bytes, a scalar any 1 byte", addresses must be non-empty -/
+def Leaf.demo : Leaf :=
+  { hexEnc := hexEncC, hexDec := hexDecC, durEnc := durEncU, durDec := durDecU,
+    pointOk := fun _ b => b.length == 2, scalarOk := fun _ b => b.length == 1, addrOk := fun a => a != "",
+    gHash := fun p => [UInt8.ofNat p.threshold, 7], cHash := fun c => [UInt8.ofNat c.periodSec, 9] }
+
+/-- the field lists of the Go structs as this model has them, per conversion pair: (name, type fields, mirror
+fields). Tied to the regenerated lists in DrandProofs/C20.lean, so a field added in Go breaks the tie until the
+model follows. -/
+def modelFields : List (String × List String × List String) := [
+  ("DBState/TOML",
+    ["BeaconID", "Epoch", "State", "Threshold", "Timeout", "SchemeID", "GenesisTime", "GenesisSeed", "CatchupPeriod",
+     "BeaconPeriod", "Leader", "Remaining", "Joining", "Leaving", "Acceptors", "Rejectors", "FinalGroup", "KeyShare"],
+    ["BeaconID", "Epoch", "State", "Threshold", "Timeout", "SchemeID", "GenesisTime", "GenesisSeed", "TransitionTime",
+     "CatchupPeriod", "BeaconPeriod", "Leader", "Remaining", "Joining", "Leaving", "Acceptors", "Rejectors",
+     "FinalGroup", "KeyShare"]),
+  ("Group/TOML",
+    ["Threshold", "Period", "Scheme", "ID", "CatchupPeriod", "Nodes", "GenesisTime", "GenesisSeed", "TransitionTime",
+     "PublicKey"],
+    ["Threshold", "Period", "CatchupPeriod", "Nodes", "GenesisTime", "TransitionTime", "GenesisSeed", "PublicKey",
+     "SchemeID", "ID"]),
+  ("Identity/TOML", ["Key", "Addr", "Signature", "Scheme"], ["Address", "Key", "Signature", "SchemeName"]),
+  ("Node/TOML", ["Identity", "Index"], ["PublicTOML", "Index"]),
+  ("Pair/TOML", ["Key", "Public"], ["Key", "SchemeName"]),
+  ("Share/TOML", ["Commits", "Share", "Scheme"], ["Index", "Share", "Commits", "PrivatePoly", "SchemeName"]),
+  ("DistPublic/TOML", ["Coefficients"], ["Coefficients"]),
+  ("Info/JSON", ["PublicKey", "ID", "Period", "Scheme", "GenesisTime", "GenesisSeed"],
+    ["PublicKey", "ID", "Period", "Scheme", "GenesisTime", "GenesisSeed", "ChainHash", "OldSchemeID", "OldGroupHash",
+     "OldMetadata"]),
+  ("Group/Proto",
+    ["Threshold", "Period", "Scheme", "ID", "CatchupPeriod", "Nodes", "GenesisTime", "GenesisSeed", "TransitionTime",
+     "PublicKey"],
+    ["Nodes", "Threshold", "Period", "GenesisTime", "TransitionTime", "GenesisSeed", "DistKey", "CatchupPeriod",
+     "SchemeID", "Metadata"]),
+  ("Identity/Proto", ["Key", "Addr", "Signature", "Scheme"], ["Address", "Key", "Tls", "Signature"]),
+  ("Info/Proto", ["PublicKey", "ID", "Period", "Scheme", "GenesisTime", "GenesisSeed"],
+    ["PublicKey", "Period", "GenesisTime", "Hash", "GroupHash", "SchemeID", "Metadata"]),
+  ("Beacon/Proto", ["PreviousSig", "Round", "Signature"], ["PreviousSignature", "Round", "Signature", "Metadata"])]
+
+/-- Fields that are legitimately not covered by a conversion body: (pair, direction, field). -/
+def coverageExemptions : List (String × String × String) := [
+  -- DBStateTOML.TransitionTime is declared in the mirror but DBState has no such field: TOML() never sets it and
+  -- FromTOML() never reads it (a dead entry that is written as the zero time)
+  ("DBState/TOML", "to-write", "TransitionTime"), ("DBState/TOML", "from-read", "TransitionTime"),
+  -- ShareTOML.PrivatePoly: legacy entry of the share file, neither written nor read
+  ("Share/TOML", "to-write", "PrivatePoly"), ("Share/TOML", "from-read", "PrivatePoly"),
+  -- proto Identity.Tls: deprecated wire field, neither set nor read
+  ("Identity/Proto", "to-write", "Tls"), ("Identity/Proto", "from-read", "Tls"),
+  -- Identity.Scheme does not travel: IdentityFromProto takes it from its `targetScheme` argument
+  ("Identity/Proto", "to-read", "Scheme"),
+  -- ChainInfoPacket.Hash is derived from the other fields on encode; InfoFromProto does not read it back
+  ("Info/Proto", "from-read", "Hash"),
+  -- BeaconPacket.Metadata carries the beacon id for routing; it is not part of common.Beacon
+  ("Beacon/Proto", "from-read", "Metadata")]
+
+def Mirror.covered (ex : List (String × String × String)) (m : Gen.Mirror) : Bool :=
+  m.typeFields.all (fun f => m.toReads.contains f || ex.contains (m.name, "to-read", f)) &&
+  m.mirrorFieldsTo.all (fun f => m.toWrites.contains f || ex.contains (m.name, "to-write", f)) &&
+  m.mirrorFieldsFrom.all (fun f => m.fromReads.contains f || ex.contains (m.name, "from-read", f)) &&
+  m.typeFields.all (fun f => m.fromWrites.contains f || ex.contains (m.name, "from-write", f))
+
+/-- an exemption is *needed*: the field exists on that side of that pair and the body really does not touch it -/
+def exemptionNeeded (ms : List Gen.Mirror) (e : String × String × String) : Bool :=
+  ms.any fun m => m.name == e.1 &&
+    (match e.2.1 with
+     | "to-read" => m.typeFields.contains e.2.2 && !m.toReads.contains e.2.2
+     | "to-write" => m.mirrorFieldsTo.contains e.2.2 && !m.toWrites.contains e.2.2
+     | "from-read" => m.mirrorFieldsFrom.contains e.2.2 && !m.fromReads.contains e.2.2
+     | "from-write" => m.typeFields.contains e.2.2 && !m.fromWrites.contains e.2.2
+     | _ => false)
 
 /-! ### well-formedness: what the producers of these values establish (hypotheses of the C20 theorems) -/
 
